@@ -41,6 +41,15 @@ ASSUMPTIONS = ["locking enabled (hooks.config.site.lockDirectoryBase is the "
                "related = one process started with the other's pid in EUPS_LOCK_PID; two children of one holder are unrelated",
                "the elements of a command's path are distinct (Eups.setEupsPath removes duplicates)"]
 
+# what the models mirror (fingerprints: a change of any of these escalates the quick tier's case budget)
+MIRRORS = [("python/eups/lock.py", "*"), ("python/eups/setupcmd.py", "*"),
+           ("python/eups/cmd.py", "EupsCmd.execute"), ("python/eups/cmd.py", "EupsCmd.run"),
+           ("python/eups/cmd.py", "AdminCmd.execute"), ("python/eups/cmd.py", "DistribCmd.execute"),
+           ("python/eups/cmd.py", "EupsCmd.createEups"), ("python/eups/cmd.py", "EupsCmd.addOptions"),
+           ("python/eups/cmd.py", "EupsCmd.__init__"), ("python/eups/cmd.py", "register"),
+           ("python/eups/cmd.py", "makeEupsCmd"), ("python/eups/Eups.py", "Eups.setEupsPath"),
+           ("python/eups/utils.py", "getUserName")]
+
 CORPUS = os.path.join(common.VERIF, "corpus", "C09")
 WORKERS = 4
 
@@ -470,8 +479,8 @@ def three_proc_configs():
     return cfgs
 
 
-def explore_cases(ctx, cfgs, tag, limit=None):
-    reqs = [{"m": "c09", "op": "explore", "monitors": False, "max": 400000,
+def explore_cases(ctx, cfgs, tag, limit=None, signals=False):
+    reqs = [{"m": "c09", "op": "explore", "signals": signals, "max": 400000,
              "procs": [{"kind": p["kind"], "lp": p["lp"], "tries": p["tries"]} for p in procs]} for procs in cfgs]
     answers = ctx.lean.ask_many(reqs)
     cases = []
@@ -486,7 +495,10 @@ def explore_cases(ctx, cfgs, tag, limit=None):
         if limit is not None and len(scheds) > limit:
             scheds = ctx.rng.sample(scheds, limit)
         for s in scheds:
-            cases.append({"procs": procs, "sched": s, "src": tag})
+            c = {"procs": procs, "sched": s, "src": tag}
+            if any(x < 0 for x in s):
+                c["signal"] = ctx.rng.choice(["TERM", "INT"])
+            cases.append(c)
     return cases
 
 
@@ -892,7 +904,8 @@ def run(ctx):
     cmd_table_check(ctx)
     evaluate(ctx, name_cases())
     # all distinct interleavings of two processes (transition cover of the model's state graph)
-    two = explore_cases(ctx, two_proc_configs(), "cover2")
+    # — the state graph with the signal transitions (a signal for a process in its body) as well
+    two = explore_cases(ctx, two_proc_configs(), "cover2", signals=True)
     ctx.hist("cover2_schedules", len(two))
     quick = interleave([two] + generated(ctx, (500, 150, 100, 300, 400, 80, 120), 60))
     for k in range(0, len(quick), 600):
